@@ -95,11 +95,14 @@ impl<S: Clone + Debug> SymbolTable<S> {
         // Make sure the path is already present
         let new_nx = self.ensure_index(new_parent_nx, new_path);
 
-        // Check if there's already an edge called 'new_id' that goes somewhere different than 'to_export_nx'
+        // Check if there's already an edge called 'new_id' that goes somewhere different than 'to_export_nx'.
+        // And a symbol cannot be exported into itself or into a scope below itself (`x as x.y`): every walk over the
+        // table would go round in circles
         if self
             .graph
             .edges_directed(new_nx, Direction::Outgoing)
             .any(|edge| edge.target() != to_export_nx && edge.weight() == &new_id)
+            || petgraph::algo::has_path_connecting(&self.graph, to_export_nx, new_nx, None)
         {
             false
         } else {
